@@ -15,6 +15,7 @@ import (
 	"strconv"
 	"strings"
 	"time"
+	"unsafe"
 
 	"github.com/bytedance/sonic"
 	"github.com/bytedance/sonic/ast"
@@ -532,14 +533,24 @@ func searchHandle(in []byte) []byte {
 				negative = negative || (!stp.IsKey && stp.I < 0)
 			}
 			if !negative { // the search entry points document a panic for negative indexes: outside their domain
-				n1, err := sonic.Get([]byte(text), args...)
+				// the entry points that promise a copy are given a buffer of the caller's that is overwritten as soon as they
+				// return: what they returned may not change (whatever kind of value was located)
+				buf1 := []byte(text)
+				n1, err := sonic.Get(buf1, args...)
+				scribble(buf1)
 				judgeLookup(&res, &c, "Get", text, &n1, err, &c.Get)
 				n2, err := sonic.GetFromString(text, args...)
 				judgeLookup(&res, &c, "GetFromString", text, &n2, err, &c.Get)
-				n3, err := sonic.GetCopyFromString(text, args...)
+				buf3 := []byte(text)
+				n3, err := sonic.GetCopyFromString(*(*string)(unsafe.Pointer(&buf3)), args...)
+				scribble(buf3)
 				judgeLookup(&res, &c, "GetCopyFromString", text, &n3, err, &c.Get)
 				for _, o := range searchOpts {
-					n4, err := sonic.GetWithOptions([]byte(text), o, args...)
+					buf4 := []byte(text)
+					n4, err := sonic.GetWithOptions(buf4, o, args...)
+					if o.CopyReturn {
+						scribble(buf4)
+					}
 					judgeLookup(&res, &c, fmt.Sprintf("GetWithOptions(%v)", o), text, &n4, err, &c.Get)
 				}
 				s := ast.NewSearcher(text)
@@ -718,4 +729,11 @@ func searchMain(args []string) int {
 func init() {
 	subcmds["search"] = searchMain
 	workpool.Register("search", searchHandle)
+}
+
+// scribble overwrites a buffer the caller owns (with bytes that are no JSON value and no part of one)
+func scribble(b []byte) {
+	for i := range b {
+		b[i] = '#'
+	}
 }
